@@ -4,6 +4,24 @@ import json, os
 V = os.path.dirname(os.path.dirname(os.path.abspath(__file__)))
 
 CHECKS = {
+ "C07": dict(
+    technique="runtime differential: expression trees evaluated with Python's operators vs parse_expression of 7 renderings (independent reader + ast validate each rendering); audit hook + profile hook during parsing of hostile strings",
+    text="Every tree with <= 3 leaves over {2, 3, 0.5, m, s, km, percent} and + - * / // ** unary minus in float/Decimal/Fraction registries (complete; all four-leaf trees and all operator "
+         "skeletons up to 6 leaves in thorough), random trees of 5-12 leaves, each rendered as spaced / dense / parenthesised with ^ / juxtaposition / superscripts / glued groups / mixed "
+         "whitespace; the parsed value, units, magnitude type or error class must equal the tree's. Word forms, literal types, uncertainty notations, ureg(s) and Quantity(s) entry points; "
+         "damaged strings (dropped parenthesis or operand, dangling operator) must raise; 24 k / 400 k hostile strings parsed under sys.addaudithook + sys.setprofile (eval, exec, compile, "
+         "import, open, os.*, getattr from parser frames) must produce only exceptions or quantities.",
+    note="renderings that the independent reader cannot read back make the run inconclusive, never a violation; three recorded findings (E1-E3); CPython's own tokenizer error path opening '<string>' is counted only",
+    ref="4/C07"),
+ "C03": dict(
+    technique="runtime oracles: reference-model evaluation of every operator node (exact in the Fraction registry) + re-expression metamorphic relation; operand fingerprints; icontract invariants on the live UnitsContainer; line observer on 23 anchored methods",
+    text="Random expression trees (depth <= 3 quick / 4 thorough) and a systematic operator x left-kind x right-kind x form matrix over + - * / // % ** neg abs == != < <= > >= divmod, each "
+         "binary node as plain, reflected (also the reflected dunder called directly) and in-place form, leaves expressed in 4 alternative unit assignments (other units of the class, prefixed, "
+         "compounds, percent/ppm/radian decorations), magnitudes int/Fraction/Decimal/float/ndarray, default and auto_reduce registries, generated registries: every node's real result is "
+         "compared with (value in root units, dimension vector) computed by the independent model and with the same node under the other unit assignments; error classes must agree; only "
+         "in-place targets may change (fingerprints); 52 M container-invariant evaluations per quick run.",
+    note="offset/log units out of scope (C06); negatively scaled units excluded; float runs carry a propagated error bound; one recorded finding (float auto-reduce rounding, shared with C15), one defect fixed (in-place ** by a zero quantity)",
+    ref="4/C03"),
  "C06": dict(
     technique="runtime oracle: affine/log unit model + 51-rule table transcribed from docs and test tables vs real conversions and arithmetic in 4 registry modes; in-place vs functional twins; line observer on the anchored functions",
     text="Every ordered pair among kelvin, degC, degF, degRe, degR and their deltas, generated offset units (rational scale/offset, several reference units), all 49 log-unit pairs, under "
